@@ -34,6 +34,9 @@ type Tape struct {
 	Labels  []string // decoded choices in global order (only when Trace)
 	Phase   string   // stream used by the scheduler goroutine: "build" or "sched"
 	n       int
+	// Override fixes the value of labelled draws of the build stream (directed re-execution);
+	// the fixed value is what gets recorded
+	Override map[string]uint32
 }
 
 type tstream struct {
@@ -96,12 +99,35 @@ func (t *Tape) Choose(n int, label string) int {
 		}
 		s.pos++
 	}
+	if t.Override != nil && name == "build" {
+		if ov, ok := t.Override[label]; ok {
+			v = ov % uint32(n)
+		}
+	}
 	s.rec = append(s.rec, v)
 	t.n++
 	if t.Trace {
 		t.Labels = append(t.Labels, fmt.Sprintf("%s/%s=%d/%d", name, label, v, n))
 	}
 	return int(v)
+}
+
+// Force records v as the outcome of a draw among n alternatives (a scheduler that decides by
+// other means than the tape writes its decisions down in the form the ordinary policy reads).
+//
+//go:norace
+func (t *Tape) Force(n, v int, label string) int {
+	if n <= 1 {
+		return 0
+	}
+	s, name := t.stream()
+	s.pos++
+	s.rec = append(s.rec, uint32(v))
+	t.n++
+	if t.Trace {
+		t.Labels = append(t.Labels, fmt.Sprintf("%s/%s=%d/%d (directed)", name, label, v, n))
+	}
+	return v
 }
 
 // Data returns what was consumed, with trailing zeros stripped (they are implicit).
@@ -200,6 +226,7 @@ type World struct {
 
 	// scheduling strategy of this run
 	strat      int
+	dir        *directedCfg // deadlock-directed re-execution (see directed.go)
 	preemptNum int // preemption probability preemptNum/preemptDen
 	preemptDen int
 	advNum     int // probability of advancing the clock while tasks are enabled: advNum/64
@@ -522,11 +549,20 @@ func (w *World) step(draw bool) bool {
 			pick = en[0]
 		}
 	} else {
-		if adv && w.advNum > 0 && w.T.Bool(w.advNum, 64, "advance?") {
+		if w.dir != nil {
+			p, advanced := w.directedPick(en, cur, at, adv)
+			if advanced {
+				return true
+			}
+			pick = p
+		} else if adv && w.advNum > 0 && w.T.Bool(w.advNum, 64, "advance?") {
 			w.advanceTo(at, "while-busy")
 			w.Probe("clock-advanced-while-tasks-enabled")
 			return true
 		}
+		switch {
+		case pick != nil:
+		default:
 		switch w.strat {
 		case stratWalk:
 			// order: current first so that 0 continues
@@ -558,6 +594,7 @@ func (w *World) step(draw bool) bool {
 			} else {
 				pick = en[w.T.Choose(len(en), "next")]
 			}
+		}
 		}
 	}
 	// scheduling decisions go into the hash in compact form in every mode (sequence numbers
@@ -609,11 +646,25 @@ func (w *World) planDone() bool {
 //
 //go:norace
 func (w *World) RunMain() {
+	stuck := 0
 	for w.Steps < w.MaxSteps {
 		// the plan is complete and nothing is runnable: periodic timers (heartbeats) alone do
 		// not keep the main phase alive
-		if w.planDone() && len(w.enabled()) == 0 {
-			return
+		if len(w.enabled()) == 0 {
+			if w.planDone() {
+				return
+			}
+			// tasks blocked on locks and nothing to run: time alone frees no lock that a blocked
+			// task holds; periodic timers must not keep such a state alive for ever
+			if w.lockBlocked() {
+				stuck++
+				if stuck > 200 {
+					w.Logf("main phase ends: tasks blocked on locks, nothing enabled")
+					return
+				}
+			}
+		} else {
+			stuck = 0
 		}
 		if !w.step(true) {
 			return
@@ -678,6 +729,18 @@ func (w *World) drainStep() bool {
 // Deadlocked reports tasks that are parked on a modelled lock (or an unsatisfied wait of a
 // plan task) once nothing is enabled.
 //
+//go:norace
+func (w *World) lockBlocked() bool {
+	for _, t := range w.S.Tasks() {
+		if t.Parked() {
+			if k := t.OpKind(); k == "lock" || k == "rlock" || k == "wlockwait" {
+				return true
+			}
+		}
+	}
+	return false
+}
+
 //go:norace
 func (w *World) CheckNoDeadlock() {
 	if len(w.enabled()) > 0 {
